@@ -3,6 +3,7 @@ package harness
 import (
 	"context"
 	"errors"
+	"fmt"
 	"io"
 	"sync"
 
@@ -165,6 +166,29 @@ func (c *memClient) TeardownAndDestroy(ctx context.Context, in *v1alpha1.Teardow
 	return wire(resp)
 }
 
+var (
+	serverPanicMu sync.Mutex
+	serverPanics  []string
+)
+
+// recordServerPanic notes that a request made the server handler panic (a real gRPC server process would die).
+func recordServerPanic(method string, p any) {
+	serverPanicMu.Lock()
+	defer serverPanicMu.Unlock()
+
+	serverPanics = append(serverPanics, fmt.Sprintf("%s: %v", method, p))
+}
+
+func takeServerPanics() []string {
+	serverPanicMu.Lock()
+	defer serverPanicMu.Unlock()
+
+	out := serverPanics
+	serverPanics = nil
+
+	return out
+}
+
 // memStream is both ends of a server-streaming RPC.
 type memStream[T any, PT interface {
 	*T
@@ -265,7 +289,19 @@ func (c *memClient) List(ctx context.Context, in *v1alpha1.ListRequest, _ ...grp
 	s := newMemStream[v1alpha1.ListResponse](ctx, -1)
 
 	go func() {
-		s.finish(c.srv.List(req, s))
+		var err error
+
+		defer func() {
+			if p := recover(); p != nil {
+				recordServerPanic("List", p)
+
+				err = status.Error(codes.Internal, "server panic")
+			}
+
+			s.finish(err)
+		}()
+
+		err = c.srv.List(req, s)
 	}()
 
 	return s, nil
@@ -297,7 +333,19 @@ func (c *memClient) Watch(ctx context.Context, in *v1alpha1.WatchRequest, _ ...g
 	s := newMemStream[v1alpha1.WatchResponse](ctx, breakAfter)
 
 	go func() {
-		s.finish(srv.Watch(req, s))
+		var err error
+
+		defer func() {
+			if p := recover(); p != nil {
+				recordServerPanic("Watch", p)
+
+				err = status.Error(codes.Internal, "server panic")
+			}
+
+			s.finish(err)
+		}()
+
+		err = srv.Watch(req, s)
 	}()
 
 	return s, nil
